@@ -18,6 +18,8 @@
 (*  - the RECONCILE call of a subscription may be held at the master while *)
 (*    the driver asks for an environment: the answer is delivered while    *)
 (*    that deployment waits for its offers (REVIVE held);                  *)
+(*  - ERROR events from the master, cleanup requests naming the tasks of a  *)
+(*    live environment: between requests, recovery settled;                *)
 (*  - while a teardown is held at its KILL calls (or parked between the    *)
 (*    read and the write-back of the roster) the driver may create another *)
 (*    environment; the teardown goes on when that request is over.         *)
@@ -36,11 +38,14 @@ VARIABLES tick, fstart, whole,  \* whole: no update of the last RECONCILE answer
                                 \* was dropped after that teardown was over
           owdep,                \* the stream was dropped while a KILL was lost AND an environment had been deployed since
           dda,                  \* an environment was requested while the whole answer to a RECONCILE call was still pending
-          opt                   \* the core options of this scenario (an element of CoreOpts); nothing in Restart depends on it
-gvars == <<vars, tick, fstart, whole, flav, ovl, owdep, dda, opt>>
+          opt,                  \* the core options of this scenario (an element of CoreOpts); nothing in Restart depends on it
+          ee,                   \* the master has sent an ERROR event on the stream in this life
+          cln                   \* 0 | 1: a cleanup request named the tasks of a live environment | 2: ... and the stream ended since
+gvars == <<vars, tick, fstart, whole, flav, ovl, owdep, dda, opt, ee, cln>>
+HK == ee' = ee /\ cln' = cln
 Keep == flav' = flav /\ ovl' = ovl /\ owdep' = owdep /\ dda' = dda
-Tk == tick' = tick + 1 /\ opt' = opt /\ fstart' = fstart /\ whole' = whole /\ Keep
-TkW(b) == tick' = tick + 1 /\ opt' = opt /\ fstart' = fstart /\ whole' = b /\ Keep
+Tk == tick' = tick + 1 /\ opt' = opt /\ HK /\ fstart' = fstart /\ whole' = whole /\ Keep
+TkW(b) == tick' = tick + 1 /\ opt' = opt /\ HK /\ fstart' = fstart /\ whole' = b /\ Keep
 TkF == tick' = tick + 1 /\ opt' = opt /\ fstart' \in {tick + g : g \in FaultGaps} /\ whole' = whole /\ dda' = dda
 
 Settled == rq = {} /\ rcv = {}
@@ -73,7 +78,7 @@ G_Reconcile == Reconcile /\ TkW(TRUE)
 G_ReconcileUpdate(t) == ReconcileUpdate(t) /\ TkW(FALSE)
 G_KillOnReconcile(t) == KillOnReconcile(t) /\ Tk
 G_KillArrives(t) == KillArrives(t) /\ Tk
-TkL(f) == tick' = tick + 1 /\ opt' = opt /\ fstart' = fstart /\ whole' = whole /\ flav' = f /\ ovl' = ovl /\ owdep' = owdep /\ dda' = dda
+TkL(f) == tick' = tick + 1 /\ opt' = opt /\ HK /\ fstart' = fstart /\ whole' = whole /\ flav' = f /\ ovl' = ovl /\ owdep' = owdep /\ dda' = dda
 G_KillLost(t) == NoneTransient /\ ~owed /\ KillLost(t) /\ TkL("lost")
 G_KillRefused(t) ==
   /\ NoneTransient /\ ~owed /\ KillRefused(t)
@@ -85,14 +90,14 @@ G_RefreshOnReconcile(t) == RefreshOnReconcile(t) /\ Tk
 AnswerHeld == up /\ conn = "up" /\ whole /\ rq # {} /\ rcv = {} /\ kq = {} /\ NoneTransient /\ ~owed
 G_NewEnv(e) ==
   /\ (DriverFree \/ (Quiet /\ ~owed /\ TeardownHeld) \/ AnswerHeld) /\ NewEnv(e)
-  /\ tick' = tick + 1 /\ opt' = opt /\ fstart' = fstart /\ whole' = whole /\ flav' = flav /\ ovl' = ovl /\ owdep' = owdep
+  /\ tick' = tick + 1 /\ opt' = opt /\ HK /\ fstart' = fstart /\ whole' = whole /\ flav' = flav /\ ovl' = ovl /\ owdep' = owdep
   /\ dda' = (dda \/ AnswerHeld)
 G_Launch(e, S) == Settled /\ Launch(e, S) /\ Tk
 G_Lock(e) == Lock(e) /\ Tk
 \* (a deployment parked by the driver, like a report held back by it, is let go only once recovery has settled)
 G_RosterAppend(e) ==
   /\ (conn # "up" \/ Settled) /\ RosterAppend(e)
-  /\ tick' = tick + 1 /\ opt' = opt /\ fstart' = fstart /\ whole' = whole /\ flav' = flav /\ owdep' = owdep /\ dda' = dda
+  /\ tick' = tick + 1 /\ opt' = opt /\ HK /\ fstart' = fstart /\ whole' = whole /\ flav' = flav /\ owdep' = owdep /\ dda' = dda
   /\ ovl' = IF \E o \in Envs \ {e} : env[o] \in {"rewriting", "killing"} THEN 1 ELSE ovl
 \* the agent's report is held back until the roster is written and the event stream can carry it (a report
 \* sent while the stream is down is lost; Restart does not model what the core has learned), or the core is gone
@@ -112,7 +117,7 @@ G_EnvError(e) == EnvError(e) /\ Tk
 G_Crash ==
   /\ tick >= fstart /\ up /\ conn = "up" /\ rq = {} /\ FaultEnvOK("crash") /\ ((rcv = {} /\ kq = {}) \/ NoneTransient) /\ Something
   /\ ~(\E e \in Envs : env[e] = "deploying" /\ (rq # {} \/ rcv # {} \/ kq # {}))
-  /\ Crash /\ TkF /\ flav' = flav /\ ovl' = 0 /\ owdep' = FALSE
+  /\ Crash /\ TkF /\ flav' = flav /\ ovl' = 0 /\ owdep' = FALSE /\ ee' = FALSE /\ cln' = 0
 \* drop: recovery settled, or while the whole answer to a RECONCILE call is still on its way (it is lost)
 AnswerPending == rq # {} /\ whole /\ NoneTransient
 G_DropConnection ==
@@ -120,6 +125,14 @@ G_DropConnection ==
   /\ FaultEnvOK("drop") /\ Something
   /\ DropConnection /\ TkF /\ flav' = flav /\ ovl' = (IF ovl = 1 /\ NoneTransient THEN 2 ELSE ovl)
   /\ owdep' = (owdep \/ (owed /\ \E e \in Envs : env[e] \in {"configured", "running"}))
+  /\ ee' = ee /\ cln' = (IF cln = 1 THEN 2 ELSE cln)
+\* an ERROR event: recovery settled, nothing in progress
+G_StreamError ==
+  /\ tick >= fstart /\ Quiet /\ ~owed /\ NoneTransient /\ Something
+  /\ StreamError /\ TkF /\ flav' = flav /\ ovl' = ovl /\ owdep' = owdep /\ ee' = TRUE /\ cln' = (IF cln = 1 THEN 2 ELSE cln)
+G_CleanupNamed(e) ==
+  /\ DriverFree /\ cln = 0 /\ CleanupNamed(e)
+  /\ tick' = tick + 1 /\ opt' = opt /\ fstart' = fstart /\ whole' = whole /\ Keep /\ ee' = ee /\ cln' = 1
 
 GenNext ==
   \/ G_CoreStart \/ G_Subscribe \/ G_Resubscribe \/ (\E id \in 1..(MaxCrash + 2) : G_Subscribed(id)) \/ G_StoreFid \/ G_Reconcile
@@ -128,9 +141,10 @@ GenNext ==
   \/ \E e \in Envs : \/ G_NewEnv(e) \/ (\E S \in SUBSET Tasks : G_Launch(e, S)) \/ G_Lock(e) \/ G_RosterAppend(e)
                      \/ G_ConfigureSend(e) \/ G_ConfigureDone(e) \/ G_StartSend(e) \/ G_StartDone(e)
                      \/ G_Release(e) \/ G_RosterRemove(e) \/ G_RosterRead(e) \/ G_RosterWrite(e) \/ G_KillSend(e) \/ G_EnvError(e)
-  \/ G_Crash \/ G_DropConnection
+                     \/ G_CleanupNamed(e)
+  \/ G_Crash \/ G_DropConnection \/ G_StreamError
 
-GenInit == Init /\ tick = 0 /\ fstart \in FaultStarts /\ whole = FALSE /\ flav = "" /\ ovl = 0 /\ owdep = FALSE /\ dda = FALSE /\ opt \in CoreOpts
+GenInit == Init /\ tick = 0 /\ fstart \in FaultStarts /\ whole = FALSE /\ flav = "" /\ ovl = 0 /\ owdep = FALSE /\ dda = FALSE /\ opt \in CoreOpts /\ ee = FALSE /\ cln = 0
 GenSpec == GenInit /\ [][GenNext]_gvars
 TickBound == tick < 48
 
@@ -148,6 +162,12 @@ ProbeLostKillDeployed == ~(owdep /\ life >= 2 /\ Recovered /\ \A t \in Tasks : A
 \* the deployment waits for its offers - the leftovers are killed all the same, the environment comes up
 ProbeDeployDuringAnswer ==
   ~(dda /\ life >= 2 /\ Quiet /\ NoneTransient /\ (\E e \in Envs : env[e] = "configured") /\ \A t \in Tasks : Alive(t) => Owned(t))
+\* an ERROR event from the master while an environment is up: same identity afterwards, the environment unharmed
+\* (in the first life of an installation - the id was assigned, not loaded - and in a later one)
+ProbeErrorEvent == ~(ee /\ life = 1 /\ Recovered /\ \E e \in Envs : env[e] = "configured")
+ProbeErrorEventLater == ~(ee /\ life >= 2 /\ Recovered /\ \E e \in Envs : env[e] = "configured")
+\* a cleanup request naming the tasks of a live environment, then a reconnection: they are still its tasks
+ProbeCleanupNamed == ~(cln = 2 /\ Recovered /\ \E e \in Envs : env[e] = "configured")
 \* a deployment completed while a teardown was held, that teardown over, then a reconnection
 ProbeOverlap == ~(ovl = 2 /\ Recovered /\ \E e \in Envs : env[e] = "configured")
 =============================================================================
